@@ -62,13 +62,40 @@
     unparsed one, a recursive one, one whose replacement text is not content) and the reference
     can be appended to an element or an attribute; the parser refuses the print.  The [merged]
     view of the full statement is not used: the conclusion here is the stronger equality of
-    item lists, which is why adjacent and empty Text items are excluded. *)
+    item lists, which is why adjacent and empty Text items are excluded.
+
+    Connection to C14 (last section; Proofs/StoreIso.v, StoreIsoSim.v, StoreIsoDoc.v, StoreIsoQuery.v,
+    StoreDocPiFlag.v).  The second sentence of C14 ([C14_query_depends_on_tree_only]) had one
+    hypothesis left: [same_tree] of the table of the edited document and the table of the
+    re-parse.  Here:
+      C15_iso_same_tree        an injective renaming of ids that keeps kinds, the names and data
+                               the view reads, child / attribute lists and the string facts
+                               gives [same_tree] (every field of every row, both views)
+      C15_same_doc_same_tree   two stores with TreeInv, Lex15, PiFlagOk that denote the same
+                               document ([doc_of_store s1 = doc_of_store s2]) are related by such
+                               a renaming, hence [same_tree] -- for string facts that are
+                               functions of the denoted attribute / value piece ([FactsBy])
+      C14_query_on_reparse     for an edited document [s1] of a reachable world outside [Known15],
+                               the document [d'] the parser returns for its print and ANY store
+                               [s2] with the invariants that denotes [d']: every supported
+                               expression has the same value on both tables, the value XPath 1.0
+                               prescribes.
+    There is no Coq function from a parsed document to a store (the drivers build initial stores
+    from the implementation's dump); the store of the re-parse is therefore characterised by
+    [doc_of_store s2 = d'], which is decided by computation for a concrete table
+    ([C14_query_on_reparse_example]).  [PiFlagOk] (a PI without content holds no data) is a new
+    invariant of every history ([C15_piflag_reachable], no facts hypothesis): the table reads the
+    data of a PI, the printer and the infoset only when the flag is set. *)
 From Coq Require Import List NArith Bool.
-From XmlRs Require Import Base.CPred Spec.XmlChars Spec.DomCharData.
+From XmlRs Require Import Base.CPred.
+From XmlRs Require Import Model.XPathAst Model.XDoc Model.XPathEval Spec.XPath10 Proofs.XPathRefineSupp Proofs.XPathRefineEval Proofs.XPathTreeOnly.
+From XmlRs Require Import Spec.XmlChars Spec.DomCharData.
 From XmlRs Require Import Model.Info Model.Display Proofs.DisplayEq Proofs.DisplayFull.
 From XmlRs Require Import Model.Store Model.StoreCheck Model.PrintableCheck Model.DomOps Model.StoreDoc
   Proofs.DomTree Proofs.DomOpsInv Proofs.CharDataProofs Proofs.DomPrintable Proofs.DomL1RefineInv
-  Proofs.StoreDocInv Proofs.StoreDocShow Proofs.StoreDocWf Proofs.StoreDocReach.
+  Proofs.DomOrder Proofs.DomOrderInv Model.StoreView
+  Proofs.StoreDocInv Proofs.StoreDocShow Proofs.StoreDocWf Proofs.StoreDocReach
+  Proofs.StoreDocPiFlag Proofs.StoreIso Proofs.StoreIsoSim Proofs.StoreIsoDoc Proofs.StoreIsoQuery.
 From XmlRs Require Model.CharData.
 Import ListNotations.
 Open Scope N_scope.
@@ -231,6 +258,68 @@ Example C15_roundtrip_example :
   /\ pipeline_parse (show_doc rt_store) = OOk ([], doc_of_store rt_store).
 Proof. exact rt_roundtrip. Qed.
 
+(** ** C14 with C15: the edited document and the re-parse of its print show the same tree to the
+    evaluator; every supported query has the same value on both
+
+    [PiFlagOk]: a PI without content holds no data (an invariant of every history, no hypothesis
+    on facts).  [FactsBy fa fr F s]: the string facts the table takes from the implementation --
+    normalised attribute values, replacement texts of entity references -- are functions of the
+    attribute / value piece the node denotes.  The store of the re-parse is characterised by what
+    it denotes ([doc_of_store s2 = d'], decided by computation for a concrete table). *)
+Theorem C15_piflag_reachable : forall ops w, WPiFlag w -> WPiFlag (run w ops).
+Proof. exact piflag_reachable. Qed.
+
+Theorem C15_piflag_checkable : forall l nx decl root, pi_flag_b l = true -> PiFlagOk (store_of_list l nx decl root).
+Proof. exact pi_flag_b_sound. Qed.
+
+(** a renaming of ids that preserves what the view reads gives the same tree (store-level
+    sufficient condition for the last hypothesis of C14_query_depends_on_tree_only) *)
+Theorem C15_iso_same_tree : forall (F1 F2 : sfacts) (merged : bool) (s1 s2 : store) (r : id -> id),
+  TreeInv s1 -> TreeInv s2 -> r (sroot s1) = sroot s2 ->
+  (forall n it1, att s1 n -> get s1 n = Some it1 -> exists it2, get s2 (r n) = Some it2 /\ item_sim r it1 it2) ->
+  (forall a b, r a = r b -> a = b) ->
+  (forall a, att s1 a -> sf_attr F2 (r a) = sf_attr F1 a) ->
+  (forall c, att s1 c -> sf_ref F2 (r c) = sf_ref F1 c) ->
+  same_tree (xdoc_of_store F1 merged s1) (xdoc_of_store F2 merged s2).
+Proof. exact iso_same_tree. Qed.
+
+(** two stores that denote the same document show the same tree *)
+Theorem C15_same_doc_same_tree : forall (F1 F2 : sfacts) (merged : bool) (s1 s2 : store) fa fr,
+  TreeInv s1 -> TreeInv s2 -> Lex15 s1 -> Lex15 s2 -> PiFlagOk s1 -> PiFlagOk s2 ->
+  doc_of_store s1 = doc_of_store s2 -> FactsBy fa fr F1 s1 -> FactsBy fa fr F2 s2 ->
+  same_tree (xdoc_of_store F1 merged s1) (xdoc_of_store F2 merged s2).
+Proof. exact same_doc_same_tree. Qed.
+
+(** the second sentence of C14 with its last hypothesis discharged: [s1] an edited document of a
+    reachable world outside [Known15], [d'] the document the parser returns for its print, [s2] a
+    store with the invariants that denotes [d'] *)
+Theorem C14_query_on_reparse :
+  forall (F1 F2 : sfacts) fa fr (merged : bool) (init : world) (ops : list op) (k : N) (s1 s2 : store) (d' : document),
+  WGood init -> WInv2 init -> WLex15 init -> WPiFlag init ->
+  Forall op_facts_ok ops -> Forall op_facts_ok15 ops ->
+  doc_at (run init ops) k = Some s1 -> Known15 s1 = false ->
+  pipeline_parse (show_doc s1) = OOk ([], d') ->
+  TreeInv s2 -> OrderInv s2 -> Lex15 s2 -> PiFlagOk s2 -> doc_of_store s2 = d' ->
+  FactsBy fa fr F1 s1 -> FactsBy fa fr F2 s2 ->
+  forall (c1 c2 : ctx) (e : expr),
+    c_ns c1 = c_ns c2 -> get_position c1 = get_position c2 -> get_size c1 = get_size c2 ->
+    ns_lookup (c_ns c1) None = None -> supported (c_ns c1) e ->
+    value_abs (fst (query (xdoc_of_store F1 merged s1) e c1)) =
+    value_abs (fst (query (xdoc_of_store F2 merged s2) e c2)) /\
+    value_abs (fst (query (xdoc_of_store F1 merged s1) e c1)) =
+    spec_query (xdoc_of_store F1 merged s1) (c_ns c1) (get_position c1) (get_size c1) e.
+Proof. exact query_on_reparse. Qed.
+
+(** the hypotheses are satisfiable: the edited store [rt_store] and a table [rp_store] of the fresh
+    parse of its print, with other ids *)
+Example C14_query_on_reparse_example : forall fa fr merged (c1 c2 : ctx) (e : expr),
+  c_ns c1 = c_ns c2 -> get_position c1 = get_position c2 -> get_size c1 = get_size c2 ->
+  ns_lookup (c_ns c1) None = None -> supported (c_ns c1) e ->
+  pipeline_parse (show_doc rt_store) = OOk ([], doc_of_store rp_store)
+  /\ value_abs (fst (query (xdoc_of_store (facts_by fa fr rt_store) merged rt_store) e c1)) =
+     value_abs (fst (query (xdoc_of_store (facts_by fa fr rp_store) merged rp_store) e c2)).
+Proof. exact query_on_reparse_example. Qed.
+
 Print Assumptions C15_lex15_reachable.
 Print Assumptions C15_lex15_checkable.
 Print Assumptions C15_display_is_show.
@@ -239,3 +328,8 @@ Print Assumptions C15_edited_roundtrip_partial.
 Print Assumptions C15_edited_roundtrip_reachable.
 Print Assumptions C15_known15_refuted.
 Print Assumptions C15_entref_unchecked_refuted.
+Print Assumptions C15_piflag_reachable.
+Print Assumptions C15_piflag_checkable.
+Print Assumptions C15_iso_same_tree.
+Print Assumptions C15_same_doc_same_tree.
+Print Assumptions C14_query_on_reparse.
